@@ -31,7 +31,7 @@ func init() { Register("C17", runC17) }
 
 func runC17(c *Ctx) {
 	p, r := c.P, c.R
-	r.Explanation = "Decides the structural clauses of 'gated events do not linger': list-iteration safety of every loop over the ordered container/list (the successor is read before any call that may remove the element, for every list length at once), the shape of the expiry scan and of FlushAll (every element visited, gate opened for each, only exits: exhausted / error / not expired), Close reaching FlushAll, the expiry scan preceding the insertion in Process, and paired removal from both containers on every path of openGate. Wall-clock behaviour and memory bounds as numbers are not decided."
+	r.Explanation = "Decides the structural clauses of 'gated events do not linger': list-iteration safety of every loop over the ordered container/list (the successor is read before any call that may remove the element, for every list length at once), the shape of the expiry scan and of FlushAll (every element visited, gate opened for each, only exits: exhausted / error / not expired), Close reaching FlushAll, the expiry scan preceding the insertion in Process, and paired removal from both containers on every path of openGate. Wall-clock behaviour and memory bounds as numbers are not decided. C17.listops: only order-preserving list operations."
 	r.NotDecided = []string{"wall-clock expiry behaviour", "numeric memory bounds"}
 	c.errControls()
 	n := 0
